@@ -1,7 +1,11 @@
-from checks import vmprops, frontprops
+from checks import vmprops, frontprops, macroprops, semprops, c18
 CHECKS = {
     'C05': vmprops.check_vm_property, 'C06': vmprops.check_vm_property, 'C17': vmprops.check_vm_property,
     'C19': vmprops.check_vm_property, 'C20': vmprops.check_vm_property,
     'C14': frontprops.check_C14, 'C15': frontprops.check_C15, 'C08': frontprops.check_C08,
     'C10': frontprops.check_C10, 'C11': frontprops.check_C11,
+    'C02': frontprops.check_C02, 'C04': frontprops.check_C04,
+    'C09': macroprops.check_C09, 'C12': macroprops.check_C12, 'C13': macroprops.check_C13,
+    'C03': semprops.check_C03, 'C16': semprops.check_C16, 'C01': (lambda ctx: semprops.check_C01(ctx, thms=[])), 'C07': semprops.check_C07,
+    'C18': c18.check_C18,
 }
